@@ -65,5 +65,15 @@ pub fn all() -> Vec<CheckDef> {
         real: vec!["DuplexPipe/SimplexPipe (per-direction timeout, expiry test)", "Tunnel::on_tcp_connect_request (establishment timeout)", "TcpForwarder", "codecs"],
         simulated: vec!["clock (tokio paused, auto-advance)", "client and destination", "resolver", "outbound TCP"],
         not_run: vec!["QUIC/HTTP3"],
+    },
+    CheckDef {
+        property: "C17",
+        scenarios: vec![("forward", 100)],
+        level: "exploration",
+        rule: "one non-CONNECT request per run over methods (GET/HEAD/POST/PUT/DELETE/OPTIONS), targets, request bodies (none, Content-Length, chunked / unsized HTTP/2 DATA), origin responses (0-2 interim 1xx, nine statuses, bodiless / Content-Length / chunked with extensions / close-delimited, hop-by-hop headers), origin byte segmentation (whole, 1-2 cuts, byte-at-a-time, random), endpoint read sizes, client windows 1..65535 and paced readers; the origin is a strict HTTP/1.1 parser, the client de-chunks with a reference decoder; non-trivial = the origin was contacted; distinct = distinct world event trace",
+        assumptions: vec![KERNEL, NO_H3, "HTTP/2 clients are not required to see interim responses", "when the origin neither marks the end of the body nor closes, no clean end is required", "trailers are not generated"],
+        real: vec!["http_forwarded_stream (serialize_request, ForwardedStreamSource/Sink state machines)", "HttpDownstream", "Http1Codec", "Http2Codec", "DuplexPipe", "TcpForwarder"],
+        simulated: vec!["origin server (strict parser, planned responses)", "client", "resolver", "clock"],
+        not_run: vec!["TLS", "QUIC/HTTP3"],
     }]
 }
